@@ -59,6 +59,7 @@ def mk_sim(v, integrator="REB_INTEGRATOR_IAS15", tree=False, null_particles=Fals
     r.N, r.N_allocated, r.N_var, r.N_active = s.N, s.Nalloc, s.Nvar, s.Nactive
     r.integrator = v.enumc(integrator)
     r.free_particle_ap = NULL
+    v.eng.check_unsigned_wrap = True       # `r->N-1` etc. must not wrap (obligation arith.unsigned_nowrap@...)
     if tree is False:
         r.tree_root = NULL
     else:
@@ -428,6 +429,11 @@ def gen_add_tree_reject(mode_field, mode_const):
 gen_add_tree_reject("gravity", "REB_GRAVITY_TREE")
 gen_add_tree_reject("collision", "REB_COLLISION_TREE")
 gen_add_tree_reject("collision", "REB_COLLISION_LINETREE")
+P.not_decided.append("free_particle_ap != NULL (REBOUNDx callback invoked on the removed slot): callback effects not modelled; all "
+                     "tasks fix free_particle_ap == NULL")
+P.not_decided.append("reb_simulation_particle_by_hash_mpi (non-MPI build: thin wrapper returning *p or reb_particle_nan()) not under contract")
+P.not_decided.append("wrap-around of 32-bit counters beyond 2^30 particles / table entries (Z-mode); unsigned differences are checked "
+                     "(arith.unsigned_nowrap obligations), other overflow is excluded by assumption")
 P.not_decided.append("reb_simulation_add with a tree mode and an accepted particle: reb_tree_add_particle_to_tree (tree.c) is "
                      "not under contract here (tree consistency is property C15); only the rejection paths are proved")
 
@@ -537,7 +543,7 @@ def mk_lookup(v, s, null_table=False):
     r = s.r
     s.Nl, s.Nal = v.int("N_lookup"), v.int("N_allocated_lookup")
     r.N_lookup, r.N_allocated_lookup = s.Nl, s.Nal
-    v.assume(0 <= s.Nl, s.Nl <= s.Nal)
+    v.assume(0 <= s.Nl, s.Nl <= s.Nal, s.Nl <= 2 ** 30)
     if null_table:
         r.particle_lookup_table = NULL
         s.T = None
@@ -572,7 +578,8 @@ def search_invariant(s, sorted_table):
     def inv(L):
         H, I, ln = table_arrays(s, L.st)
         nl = L.eng.read(L.st, Ptr(s.rp.obj, ("N_lookup",)))
-        out = [("range", z3.And(0 <= L.left, L.right <= nl - 1, L.left <= L.right + 1))]
+        out = [("range", z3.And(0 <= L.left, L.right <= nl - 1, L.left <= L.right + 1)),
+               ("midpoint_sum_fits_int", L.left + L.right < 2 ** 31)]      # (left+right)/2 does not overflow for N_lookup <= 2^30
         if sorted_table:
             out.append(("below_left_smaller", z3.ForAll([K], z3.Implies(z3.And(0 <= K, K < L.left), z3.Select(H, K) < s.hash))))
             out.append(("above_right_larger", z3.ForAll([K], z3.Implies(z3.And(L.right < K, K < nl), z3.Select(H, K) > s.hash))))
@@ -970,3 +977,252 @@ def _(v):
         v.ground("known_hash.single_remove_call", len(calls) == 1)
         v.prove("known_hash.result_passed_through", ret == s.remove_ret)
         v.prove("known_hash.only_if_present", z3.Not(absent))
+
+
+# =====================================================================================================
+# hybrid integrators: MERCURIUS / TRACE bookkeeping inside remove / add
+# =====================================================================================================
+P.assume("reb_integrator_ias15_reset / reb_integrator_bs_reset (integrator_ias15.c / integrator_bs.c) touch only "
+         "r->ri_ias15 / r->ri_bs (modelled as no-ops on the particle bookkeeping)")
+DCRIT_LOOP = 0
+
+
+def mk_mercurius(v, s, mode):
+    """MERCURIUS state: dcrit is a block of N_allocated_dcrit doubles (that is all the API guarantees between steps)"""
+    rim = s.r.ri_mercurius
+    s.Nd = v.int("N_allocated_dcrit")
+    rim.N_allocated_dcrit = s.Nd
+    rim.mode = mode
+    v.assume(s.Nd >= 0)
+    s.D = v.array("double", s.Nd, "dcrit")
+    rim.dcrit = s.D.ptr
+    s.did = s.D.obj.id
+    s.D0 = s.D.array()
+    for nm in ("reb_integrator_ias15_reset", "reb_integrator_bs_reset"):
+        v.contract(nm, noop_contract)
+    return s
+
+
+def dcrit_array(s, st=None):
+    st = st or s.v.st
+    return s.v.eng._leaf_array(st.mem.objs[s.did], ())
+
+
+def dcrit_invariant(s, index):
+    def inv(L):
+        i = L.i
+        D = dcrit_array(s, L.st)
+        return [("range", z3.And(0 <= i, z3.Or(i <= s.N - 1, i == 0))),
+                ("shifted", z3.ForAll([K], z3.Implies(z3.And(0 <= K, K < i, K >= index), z3.Select(D, K) == z3.Select(s.D0, K + 1)))),
+                ("rest", z3.ForAll([K], z3.Implies(z3.Or(K < 0, K >= i, K < index), z3.Select(D, K) == z3.Select(s.D0, K))))]
+    return inv
+
+
+@P.task("remove_particle.mercurius.sorted", fn=REMOVE)
+def _(v):
+    """MERCURIUS outside a step (mode 0), dcrit array covering all particles (state right after a step) or not yet
+    allocated: order-preserving removal whatever keep_sorted says, and dcrit follows the particles."""
+    s = mk_mercurius(v, mk_sim(v, "REB_INTEGRATOR_MERCURIUS"), 0)
+    index, ks = v.int("index"), v.int("keep_sorted")
+    v.assume(0 <= index, index < s.N, s.N >= 2, s.Nvar == 0, z3.Or(s.Nd == 0, s.Nd >= s.N))
+    v.loop(REMOVE, DCRIT_LOOP, invariant=dcrit_invariant(s, index), variant=lambda L: s.N - L.i)
+    v.loop(REMOVE, SHIFT_LOOP, invariant=shift_invariant(s, index), variant=lambda L: s.N - L.j)
+    ret = v.call(REMOVE, s.rp, index, ks)
+    r = s.r
+    v.prove("returns_1", ret == 1)
+    v.prove("N_decremented", r.N == s.N - 1)
+    v.prove("N_active_as_documented", r.N_active == z3.If(index < s.Nactive, s.Nactive - 1, s.Nactive))
+    prove_wf(v, s)
+    view_after_sorted_removal(v, s, index)
+    D = dcrit_array(s)
+    jd = v.int("jd")
+    v.assume(0 <= jd, jd < s.N - 1)
+    v.prove("dcrit_follows_particles", z3.Implies(s.Nd > 0, z3.Select(D, jd) == z3.If(jd < index, z3.Select(s.D0, jd), z3.Select(s.D0, jd + 1))))
+
+
+@P.task("remove_particle.mercurius.dcrit_smaller_than_N", fn=REMOVE)
+def _(v):
+    """MERCURIUS, particles were added since the last step (mode 0 add does not grow dcrit, so 0 < N_allocated_dcrit < N
+    is a reachable state): a VALID removal must stay inside the dcrit block.
+    EXPECTED TO FAIL (index.inbounds at particle.c:343): the shift loop runs to N-1 regardless of N_allocated_dcrit."""
+    s = mk_mercurius(v, mk_sim(v, "REB_INTEGRATOR_MERCURIUS"), 0)
+    index, ks = v.int("index"), v.int("keep_sorted")
+    v.assume(0 <= index, index < s.N, s.N >= 2, s.Nvar == 0, 0 < s.Nd, s.Nd < s.N)
+    v.loop(REMOVE, DCRIT_LOOP, invariant=dcrit_invariant(s, index), variant=lambda L: s.N - L.i)
+    v.loop(REMOVE, SHIFT_LOOP, invariant=shift_invariant(s, index), variant=lambda L: s.N - L.j)
+    ret = v.call(REMOVE, s.rp, index, ks)
+    v.prove("returns_1", ret == 1)
+
+
+@P.task("remove_particle.mercurius.invalid_index_noop", fn=REMOVE)
+def _(v):
+    """MERCURIUS (mode 0), invalid index, N != 1 (the N == 1 defect is reported by remove_particle.*.invalid_index_noop):
+    returns 0 and nothing changes, including dcrit.  EXPECTED TO FAIL: dcrit is shifted before the range check
+    (negative index), and for N == 0 the loop bound r->N-1 wraps around (arith.unsigned_nowrap)."""
+    s = mk_mercurius(v, mk_sim(v, "REB_INTEGRATOR_MERCURIUS"), 0)
+    index, ks = v.int("index"), v.int("keep_sorted")
+    v.assume(z3.Or(index < 0, index >= s.N), s.N != 1, z3.Or(s.Nd == 0, s.Nd >= s.N))
+    v.loop(REMOVE, DCRIT_LOOP, invariant=dcrit_invariant(s, index), variant=lambda L: s.N - L.i)
+    v.loop(REMOVE, SHIFT_LOOP, invariant=shift_invariant(s, index))
+    ret = v.call(REMOVE, s.rp, index, ks)
+    v.prove("returns_0", ret == 0)
+    prove_unchanged(v, s)
+    jd = v.int("jd")
+    v.assume(0 <= jd, jd < s.Nd)
+    v.prove("dcrit_unchanged", z3.Select(dcrit_array(s), jd) == z3.Select(s.D0, jd))
+
+
+@P.task("add.mercurius.append_between_steps", fn=ADD)
+def _(v):
+    """MERCURIUS mode 0: appended, and both recalculation flags are raised"""
+    s = mk_add(v, "REB_INTEGRATOR_MERCURIUS")
+    mk_mercurius(v, s, 0)
+    v.call(ADD, s.rp, s.pt)
+    add_post_appended(v, s, s.leaves)
+    rim = s.r.ri_mercurius
+    v.prove("recalculation_flags", z3.And(rim.recalculate_r_crit_this_timestep == 1, rim.recalculate_coordinates_this_timestep == 1))
+
+
+def gen_trace_plain(mode_name):
+    @P.task("remove_particle.trace.%s.sorted" % mode_name.lower().replace("reb_trace_mode_", ""), fn=REMOVE)
+    def _(v):
+        """TRACE outside the BS part: order-preserving removal whatever keep_sorted says"""
+        s = mk_sim(v, "REB_INTEGRATOR_TRACE")
+        s.r.ri_trace.mode = v.enumc(mode_name)
+        v.contract("reb_integrator_bs_reset", noop_contract)
+        index, ks = v.int("index"), v.int("keep_sorted")
+        v.assume(0 <= index, index < s.N, s.N >= 2, s.Nvar == 0)
+        v.loop(REMOVE, SHIFT_LOOP, invariant=shift_invariant(s, index), variant=lambda L: s.N - L.j)
+        ret = v.call(REMOVE, s.rp, index, ks)
+        r = s.r
+        v.prove("returns_1", ret == 1)
+        v.prove("N_decremented", r.N == s.N - 1)
+        v.prove("N_active_as_documented", r.N_active == z3.If(index < s.Nactive, s.Nactive - 1, s.Nactive))
+        prove_wf(v, s)
+        view_after_sorted_removal(v, s, index)
+
+    @P.task("add.trace.%s.append" % mode_name.lower().replace("reb_trace_mode_", ""), fn=ADD)
+    def _(v):
+        s = mk_add(v, "REB_INTEGRATOR_TRACE")
+        s.r.ri_trace.mode = v.enumc(mode_name)
+        v.call(ADD, s.rp, s.pt)
+        add_post_appended(v, s, s.leaves)
+
+
+for _m in ("REB_TRACE_MODE_INTERACTION", "REB_TRACE_MODE_NONE"):
+    gen_trace_plain(_m)
+
+
+# ---- removal in the middle of a hybrid step (collision resolution): encounter_map / current_Ks reshuffles -------------
+ENC_LOOP_MERCURIUS = 1
+
+
+@P.task("remove_particle.mercurius.during_encounter_step", fn=REMOVE)
+def _(v):
+    """MERCURIUS mode 1 (IAS15 part; particles are removed here by collision resolution).  Precondition = what the
+    encounter prediction establishes: encounter_map[0..encounter_N) strictly increasing particle indices < N, containing
+    `index` at position pos.  Post: the map loses that entry, later entries are renumbered (-1), the encounter counts
+    are adjusted, all accesses stay inside the map block."""
+    s = mk_mercurius(v, mk_sim(v, "REB_INTEGRATOR_MERCURIUS"), 1)
+    rim = s.r.ri_mercurius
+    eN, eNa, Na, pos = v.int("encounter_N"), v.int("encounter_N_active"), v.int("rim_N_allocated"), v.int("pos")
+    rim.encounter_N, rim.encounter_N_active, rim.N_allocated = eN, eNa, Na
+    M = v.array("int", Na, "encounter_map")
+    rim.encounter_map = M.ptr
+    mid = M.obj.id
+    M0 = M.array()
+    index, ks = v.int("index"), v.int("keep_sorted")
+    a, b = z3.Ints("a b")
+    v.assume(0 <= index, index < s.N, s.N >= 2, s.Nvar == 0, z3.Or(s.Nd == 0, s.Nd >= s.N))
+    v.assume(0 <= eNa, eNa <= eN, eN <= Na, eN <= s.N, 0 <= pos, pos < eN, z3.Select(M0, pos) == index)
+    v.assume(z3.ForAll([a, b], z3.Implies(z3.And(0 <= a, a < b, b < eN), z3.Select(M0, a) < z3.Select(M0, b))))
+    v.assume(z3.ForAll([K], z3.Implies(z3.And(0 <= K, K < eN), z3.And(0 <= z3.Select(M0, K), z3.Select(M0, K) < s.N))))
+
+    def marr(st):
+        return v.eng._leaf_array(st.mem.objs[mid], ())
+
+    def inv(L):
+        i, after, ei = L.i, L.after_to_be_removed_particle, L.encounter_index
+        Mc = marr(L.st)
+        return [("range", z3.And(0 <= i, i <= eN)),
+                ("flag", z3.And(z3.Or(after == 0, after == 1), (after == 1) == (pos < i), ei == z3.If(pos < i, pos, -1))),
+                ("moved", z3.ForAll([K], z3.Implies(z3.And(pos <= K, K < i - 1), z3.Select(Mc, K) == z3.Select(M0, K + 1) - 1))),
+                ("rest", z3.ForAll([K], z3.Implies(z3.Or(K < pos, K >= i - 1), z3.Select(Mc, K) == z3.Select(M0, K))))]
+    v.loop(REMOVE, DCRIT_LOOP, invariant=dcrit_invariant(s, index), variant=lambda L: s.N - L.i)
+    v.loop(REMOVE, ENC_LOOP_MERCURIUS, invariant=inv, variant=lambda L: eN - L.i)
+    v.loop(REMOVE, SHIFT_LOOP, invariant=shift_invariant(s, index), variant=lambda L: s.N - L.j)
+    ret = v.call(REMOVE, s.rp, index, ks)
+    rim = s.r.ri_mercurius
+    v.prove("returns_1", ret == 1)
+    v.prove("N_decremented", s.r.N == s.N - 1)
+    v.prove("encounter_N_decremented", rim.encounter_N == eN - 1)
+    v.prove("encounter_N_active_adjusted", rim.encounter_N_active == z3.If(pos < eNa, eNa - 1, eNa))
+    Mc = marr(v.st)
+    q = v.int("q")
+    v.assume(0 <= q, q < eN - 1)
+    v.prove("map.entry", z3.Select(Mc, q) == z3.If(q < pos, z3.Select(M0, q), z3.Select(M0, q + 1) - 1))
+    v.prove("map.entries_are_particles_of_new_view", z3.And(0 <= z3.Select(Mc, q), z3.Select(Mc, q) < s.N - 1))
+    q2 = v.int("q2")
+    v.assume(q < q2, q2 < eN - 1)
+    v.prove("map.still_strictly_increasing", z3.Select(Mc, q) < z3.Select(Mc, q2))
+    view_after_sorted_removal(v, s, index)
+
+
+def gen_trace_bs(N, last):
+    @P.task("remove_particle.trace.during_bs_step.N%d.%s" % (N, "last_particle" if last else "not_last_particle"), fn=REMOVE)
+    def _(v):
+        """TRACE mode KEPLER/FULL (BS part; particles are removed here by collision resolution), instance N = %d with all
+        particles in the encounter (encounter_map = identity): the pair matrix current_Ks (N x N, row-major) must become
+        the (N-1) x (N-1) matrix of the surviving particles, the map is renumbered.  Loops are unrolled: exhaustive for
+        this N, all index values%s.""" % (N, " = N-1 (EXPECTED TO FAIL: rows are not re-strided when the LAST particle is removed)" if last else " < N-1")
+        s = mk_sim(v, "REB_INTEGRATOR_TRACE")
+        tr = s.r.ri_trace
+        mode = v.int("trace_mode")
+        tr.mode = mode
+        v.assume(z3.Or(mode == v.enumc("REB_TRACE_MODE_KEPLER"), mode == v.enumc("REB_TRACE_MODE_FULL")))
+        s.r.N = z3.IntVal(N)
+        v.assume(s.N == N)
+        tr.encounter_N, tr.N_allocated = z3.IntVal(N), z3.IntVal(N)
+        eNa = v.int("encounter_N_active")
+        tr.encounter_N_active = eNa
+        v.assume(0 <= eNa, eNa <= N)
+        M = v.array("int", N, "encounter_map")
+        tr.encounter_map = M.ptr
+        M0 = M.array()
+        for i in range(N):
+            v.assume(z3.Select(M0, i) == i)
+        Ks = v.array("int", N * N, "current_Ks")
+        tr.current_Ks = Ks.ptr
+        K0 = Ks.array()
+        v.contract("reb_integrator_bs_reset", noop_contract)
+        index, ks = v.int("index"), v.int("keep_sorted")
+        v.assume(0 <= index, index < N, s.Nvar == 0)
+        v.assume(index == N - 1 if last else index < N - 1)
+        v.loop(REMOVE, SHIFT_LOOP, invariant=shift_invariant(s, index), variant=lambda L: s.N - L.j)
+        ret = v.call(REMOVE, s.rp, index, ks)
+        tr = s.r.ri_trace
+        v.prove("returns_1", ret == 1)
+        v.prove("N_decremented", s.r.N == N - 1)
+        v.prove("encounter_N_decremented", tr.encounter_N == N - 1)
+        v.prove("encounter_N_active_adjusted", tr.encounter_N_active == z3.If(index < eNa, eNa - 1, eNa))
+        Mc, Kc = M.array(), Ks.array()
+        for q in range(N - 1):
+            v.prove("map.%d" % q, z3.Select(Mc, q) == q)
+        n1 = N - 1
+        cells = []
+        for i in range(n1):
+            for j in range(n1):
+                oi = z3.If(i >= index, i + 1, i)
+                oj = z3.If(j >= index, j + 1, j)
+                cells.append(z3.Select(Kc, i * n1 + j) == z3.Select(K0, oi * N + oj))
+        v.prove("current_Ks_is_matrix_of_survivors", z3.And(*cells))
+        view_after_sorted_removal(v, s, index)
+
+
+for _N in (2, 3):
+    gen_trace_bs(_N, False) if _N > 2 else None
+    gen_trace_bs(_N, True)
+P.not_decided.append("TRACE current_Ks reshuffle in reb_simulation_remove_particle / reb_simulation_add_local for symbolic N: the "
+                     "index arithmetic i*new_N+j+counter is nonlinear in N (not attempted with quantifiers); instances N=2,3 "
+                     "are executed exhaustively instead (tasks remove_particle.trace.during_bs_step.N*), add in BS mode not covered")
+P.not_decided.append("MERCURIUS add during the IAS15 part (mode 1: dcrit/encounter_map growth) and TRACE add during the BS part")
